@@ -14,13 +14,19 @@ Inductive item :=
 | PTypes (a b : ty) (o : pobs)
 | PFields (a b : option str * ty) (o : pobs)
 | PConsts (a b : (option str * ty) * cval) (o : pobs)
-| PSets (a b : op) (o : pobs).
+| PSets (a b : op) (o : pobs)
+| PValues (a b : cval) (o : pobs)
+| PValueSets (a b : list cval) (o : pobs).      (* DSDL set values: equal iff equal as sets *)
+
+Definition vset_incl (a b : list cval) : bool := forallb (fun x => existsb (cval_eqb x) b) a.
 
 Definition check_item (it : item) : bool :=
   match it with
   | PTypes a b o => wft a && wft b && consistent (ty_eq a b) o
   | PFields a b o => consistent (field_eq a b) o
   | PConsts a b o => consistent (const_eq a b) o
+  | PValues a b o => consistent (cval_eqb a b) o
+  | PValueSets a b o => consistent (vset_incl a b && vset_incl b a) o
   | PSets a b o => wfb a && wfb b && consistent ((omin a =? omin b) && (omax a =? omax b) && list_eqb (omodf a 32) (omodf b 32)) o
   end.
 
